@@ -1,13 +1,44 @@
 (* C01 — Decoding never crashes or hangs, whatever bytes and history it is given. *)
 From H263V Require Import base.Prelude model.Types model.Tables model.Reader model.Header model.Syntax model.F32 model.Recon model.Decoder
-  proofs.KernelRanges.
+  proofs.KernelRanges proofs.Total1 proofs.Total2 proofs.Total3 proofs.StateRefine.
 
-(* arithmetic obligations: the quantizer stays in 1..31, dequantised coefficients in -2048..2047,
-   vector sums saturate inside i16 -- for all inputs *)
+(* The model renders every Rust operation that can panic (overflow under overflow checks, slice and Vec
+   indexing, division and remainder by zero, expect/unwrap/assert, unreachable!) as an operation that can
+   return Panic, and every input-driven loop as recursion on fuel that returns OutOfFuel when exhausted.
+   `safe r` says r is neither.  For EVERY decoder state satisfying the plane-size invariant and EVERY bit
+   string, in all four option combinations (o is arbitrary in the state), a decode call is safe and
+   re-establishes the invariant: *)
+Theorem C01_decode_total : forall s r,
+  st_inv s ->
+  safe (decode_next_picture s r) /\ (forall s' r', decode_next_picture s r = Ok (s', r') -> st_inv s').
+Proof. exact decode_total. Qed.
+
+(* ... hence after ANY history of accepted pictures, rejected pictures and clean-ups on a new decoder: *)
+Theorem C01_history_total : forall o ops r, safe (decode_next_picture (fold_left step ops (new_state o)) r).
+Proof. exact history_total. Qed.
+
+(* no loop spins without consuming input: every successfully parsed macroblock (stuffing and not-coded
+   included) consumed at least one bit, so the macroblock loop's fuel (unread bits + 1) suffices *)
+Theorem C01_macroblock_progress : forall pic running r mb r',
+  decode_macroblock pic running r = Ok (mb, r') -> (rlen r' < rlen r)%nat.
+Proof. exact decode_macroblock_progress. Qed.
+
+(* arithmetic obligations *)
 Theorem C01_kernels_safe :
   (forall q dq, 1 <= next_quant q dq <= 31) /\
   (forall q l, -2048 <= dequant q l <= 2047) /\
   (forall a b, -32768 <= hadd a b <= 32767).
 Proof. exact (conj next_quant_range (conj dequant_range hadd_range)). Qed.
 
+(* non-vacuity: the invariant holds of a new decoder *)
+Example C01_new_state_inv : forall o, st_inv (new_state o).
+Proof. exact st_inv_new. Qed.
+
+Check C01_decode_total : forall s r,
+  st_inv s ->
+  safe (decode_next_picture s r) /\ (forall s' r', decode_next_picture s r = Ok (s', r') -> st_inv s').
+Check C01_history_total : forall o ops r, safe (decode_next_picture (fold_left step ops (new_state o)) r).
+Print Assumptions C01_decode_total.
+Print Assumptions C01_history_total.
+Print Assumptions C01_macroblock_progress.
 Print Assumptions C01_kernels_safe.
